@@ -386,7 +386,11 @@ partial def loop {σ : Type} (ctx : Ctx σ) (inp : IO.FS.Stream) (st : Stats) (h
   | ["dev", sz], some h =>
     let n := sz.toNat?.getD 0
     loop ctx inp st (some { h with sess := newSession ctx.cfg n, implImg := Img.empty n })
-  | "cfg" :: args, some h => loop ctx inp st (some { h with sess := applyCfg ctx.cfg h.sess args, cfgArgs := args })
+  | "cfg" :: args, some h =>
+    -- `nomodel=1`: the device of this history behaves in a way the model does not describe (short transfers);
+    -- only the oracles run on it
+    loop ctx inp st (some { h with sess := applyCfg ctx.cfg h.sess args, cfgArgs := args,
+                                   tracking := h.tracking && Util.kv args "nomodel" != some "1" })
   | ["fault", k], some h => loop ctx inp st (some { h with pendingFault := k.toNat? })
   | "O" :: seq :: rest, some h =>
     loop ctx inp st (some { h with cur := some { seq := seq, text := " ".intercalate rest } })
